@@ -67,6 +67,37 @@ theorem dequeue_oldest_with_all_and_only_its_keys (s : PS) (p : Key) (q : PQ) (h
   unfold dequeue
   simp [ho]
 
+/-- draining: dequeue until the queue is empty -/
+def drainAll : Nat → PS → List (Key × List Key)
+  | 0, _ => []
+  | n + 1, s =>
+    match (dequeue s).1 with
+    | none => []
+    | some x => x :: drainAll n (dequeue s).2
+
+/-- No loss, no invention over a whole drain: from every state of the ordered map, dequeuing until the queue is
+    empty hands out every queued key, and nothing that was not queued. -/
+theorem drainAll_hands_out_exactly_the_keys (n : Nat) (s : PS) (h : Queue.Inv s) (hn : s.order.length = n) (k : Key) :
+    k ∈ s.keys ↔ ∃ x ∈ drainAll n s, k ∈ x.2 := by
+  induction n generalizing s with
+  | zero =>
+    have ho : s.order = [] := List.eq_nil_of_length_eq_zero hn
+    constructor
+    · intro hk
+      obtain ⟨p, hp, _⟩ := h.covered k hk
+      rw [ho] at hp; cases hp
+    · rintro ⟨x, hx, _⟩; simp [drainAll] at hx
+  | succ n ih =>
+    match ho : s.order with
+    | [] => rw [ho] at hn; cases hn
+    | p :: q =>
+      have hd := dequeue_oldest_with_all_and_only_its_keys s p q ho
+      have hi := dequeue_inv s h
+      have hlen : (dequeue s).2.order.length = n := by rw [hd.2.1]; rw [ho] at hn; simpa using hn
+      have := ih (dequeue s).2 hi hlen
+      simp only [drainAll, hd.1, List.mem_cons, exists_eq_or_imp, ← this, hd.2.2 k, List.mem_filter]
+      cases hb : isPre p k <;> simp
+
 /-- enqueueing adds exactly the supplied keys; a key already queued is not duplicated -/
 theorem enqueue_keys (s : PS) (p : Key) (ks : List Key) (k : Key) :
     k ∈ (enqueue s p ks).keys ↔ (k ∈ s.keys ∨ k ∈ ks) := by
@@ -139,6 +170,8 @@ def exOps : List Op :=
    .rm [[false, true, true]], .deqm [true]]
 example : ∀ op ∈ exOps, op.ok = true := by decide
 example : (exOps.foldl step PS.empty) = ⟨[[false]], [[false, false, true], [false, true, false]]⟩ := by decide
+example : drainAll 2 ⟨[[true], [false]], [[false, true], [true, true], [false, false]]⟩ =
+    [([true], [[true, true]]), ([false], [[false, true], [false, false]])] := by decide
 example : (drain true PS.empty (persist ⟨[[]], [[true], [false]]⟩)).1 = ⟨[[]], [[true], [false]]⟩ := by decide
 
 end KadDHT.C19
